@@ -219,7 +219,18 @@ inline sim::Plan genPlan(uint64_t seed, const std::string &profile, bool thoroug
     // sizes
     unsigned z = (unsigned)r.below(100);
     p.n0 = z < 8 ? 0 : z < 16 ? 1 : 2 + (int64_t)r.below(5);
-    p.cfg["nmax"] = thorough ? 8 : 6;
+    // size bound of the run: mostly small (the full pair-wise sweep is what finds one-sided updates), sometimes
+    // medium, rarely large (sparse sweep above 24 vertices) so that nothing silently depends on "at most 8 vertices"
+    {
+        unsigned zz = (unsigned)r.below(100);
+        int64_t nmax = thorough ? 8 : 6;
+        if (profile != "C18") {
+            if (zz < (thorough ? 12u : 5u)) nmax = 12;
+            else if (zz < (thorough ? 18u : 7u)) nmax = thorough ? 48 : 32;
+        }
+        p.cfg["nmax"] = nmax;
+        if (nmax > 8 && r.pm(700)) p.n0 = (int64_t)r.below((uint64_t)nmax + 1);
+    }
     const bool force = profile == "C16";
     p.cfg["force"] = force;
     p.cfg["exact"] = ((profile == "C05" && r.pm(300)) || (profile == "C06" && r.pm(400))) ? 0 : 1;
